@@ -341,6 +341,8 @@ pub struct World {
     pub journal: Rc<RefCell<Vec<Event>>>,
     /// journal flush requests are answered at once unless `hold` is set (a slow fsync): then they wait for `release_flushes`
     pub flush_gate: Rc<RefCell<FlushGate>>,
+    /// prune requests that reached the journal thread: (number of events persisted before, live jobs, live workers)
+    pub prunes: Rc<RefCell<Vec<(usize, Vec<u32>, Vec<u32>)>>>,
     _tmp: tempfile::TempDir,
 }
 
@@ -384,11 +386,13 @@ impl World {
         });
         let journal: Rc<RefCell<Vec<Event>>> = Default::default();
         let flush_gate: Rc<RefCell<FlushGate>> = Default::default();
+        let prunes: Rc<RefCell<Vec<(usize, Vec<u32>, Vec<u32>)>>> = Default::default();
         let gate = flush_gate.clone();
         let events = if cfg.journal {
             // journal sink: stands in for `start_event_streaming` (the writer task); records what would be persisted
             let (jtx, mut jrx) = tokio::sync::mpsc::unbounded_channel::<EventStreamMessage>();
             let sink = journal.clone();
+            let prunes = prunes.clone();
             local.spawn_local(async move {
                 while let Some(m) = jrx.recv().await {
                     match m {
@@ -401,7 +405,13 @@ impl World {
                                 let _ = cb.send(());
                             }
                         }
-                        EventStreamMessage::PruneJournal { callback, .. } => {
+                        EventStreamMessage::PruneJournal { callback, live_jobs, live_workers } => {
+                            // what `handle_prune_journal` asks the journal thread to keep
+                            let mut lj: Vec<u32> = live_jobs.iter().map(|j| j.as_num()).collect();
+                            let mut lw: Vec<u32> = live_workers.iter().map(|w| w.as_num()).collect();
+                            lj.sort();
+                            lw.sort();
+                            prunes.borrow_mut().push((sink.borrow().len(), lj, lw));
                             let _ = callback.send(());
                         }
                         EventStreamMessage::ReplayJournal(_) => {}
@@ -460,6 +470,7 @@ impl World {
             sent: Vec::new(),
             gave_back: Vec::new(),
             journal,
+            prunes,
             flush_gate,
             _tmp: tmp,
         }
